@@ -11,7 +11,7 @@ CONSTANTS
   Kinds = {"waive", "equal", "future", "neg"}
   Pols = {"leader"}
   Mut = "none"
-INVARIANTS TypeOK C16_Dense C16_Once C16_StoredAtExpected C16_AckOffset C16_RejectNotStored C16_RejectJustified C16_WaivedAccepted C16_OneWinner C16_NoneNotSilent I_Resolved I_NonOccAll I_Order I_RejectWindow
+INVARIANTS TypeOK C16_Dense C16_Once C16_StoredAtExpected C16_AckOffset C16_RejectNotStored C16_RejectJustified C16_WaivedAccepted C16_OneWinner C16_NoneNotSilent C16_Answered I_Resolved I_NonOccAll I_Order I_RejectWindow
 PROPERTIES StepsOK LogGrows
 VIEW MCView
 CHECK_DEADLOCK FALSE
